@@ -1360,10 +1360,10 @@ pub fn run(args: &Args) -> i32 {
     .assume("max_total_signature_validations counts every intent signature plus one notary signature (none for a signed partial transaction)")
     .assume("max_total_references bounds the sum of the per-intent distinct reference counts")
     .assume("epoch windows whose start + max_epoch_range overflows u64 may be rejected although they are short (recorded, not verdict-bearing)")
-    .floor("accepted", args.tier.pick(150_000, 3_000_000))
-    .floor("boundary:cases", args.tier.pick(300_000, 6_000_000))
-    .floor("random:rejected_outside", args.tier.pick(50_000, 1_000_000))
-    .floor("window_checks_multi_intent", args.tier.pick(40_000, 800_000))
+    .floor("accepted", args.tier.pick(40_000, 300_000))
+    .floor("boundary:cases", args.tier.pick(80_000, 600_000))
+    .floor("random:rejected_outside", args.tier.pick(15_000, 100_000))
+    .floor("window_checks_multi_intent", args.tier.pick(10_000, 80_000))
     .floor("dims_accepted_at_limit_and_rejected_above", 20)
     .explain("Configs: babylon, cuttlefish and random variations of every numeric field. Boundary mode sets one dimension to limit-1/limit/limit+1 on an otherwise comfortably valid V1 / V2 / signed-partial transaction; random mode perturbs 1-3 dimensions near or far beyond their limits.");
     if let Some(path) = &args.replay {
